@@ -78,6 +78,14 @@ func (x *Exec) stmt(s ast.Stmt, st *State) *Flow {
 				}
 			}
 		}
+		if call, ok := s.X.(*ast.CallExpr); ok {
+			if id, ok := unparen(call.Fun).(*ast.Ident); ok {
+				if b, ok := x.info.Uses[id].(*types.Builtin); ok && b.Name() == "copy" && len(call.Args) == 2 {
+					x.copyRefs(call, st)
+					return &Flow{fall: st}
+				}
+			}
+		}
 		x.ev(st).ev(s.X)
 		return &Flow{fall: st}
 	case *ast.AssignStmt:
